@@ -15,3 +15,6 @@ pub fn and_then_u32(v: u32) -> darling::Result<u32> {
         Ok(vmodel::ir::and_then_fn(v as u64) as u32)
     }
 }
+pub fn with_opt_u32(m: &syn::Meta) -> darling::Result<Option<u32>> {
+    <Option<u32>>::from_meta(m).map(|v| v.map(|x| x + vmodel::ir::WITH_ADD as u32))
+}
